@@ -7,14 +7,19 @@ HERE = os.path.dirname(os.path.dirname(os.path.abspath(__file__)))
 lines = ['# Independently seeded breaks', '',
          'Each was written by a fresh sub-agent that saw only the property text and its own worktree; confirmed by the lead',
          '(demo passes on the clean tree / fails with the change; repository suite unchanged) and run against the check.', '',
-         '| property | files changed | what breaks | what it needs to manifest | suite | quick tier | thorough tier |', '|---|---|---|---|---|---|---|']
+         'Rounds 2+ were told what the earlier rounds had changed and asked for another clause and mechanism.  "first run" says whether',
+         'the check as it was when the break arrived reported it; the quick-tier column is the current result (tools/seedcheck.sh), and',
+         'tools/selftest.py replays every patch as a mutant (docs/mutants.md, ids seeded-CNN[-k]).', '',
+         '| id | round | files changed | what breaks | what it needs to manifest | suite | first run | quick tier now |', '|---|---|---|---|---|---|---|---|']
 for path in sorted(glob.glob(os.path.join(HERE, 'seeded', '*', 'meta.json'))):
     m = json.load(open(path, encoding='utf-8'))
     def tier(name):
         r = m['check_result'].get(name)
         return '-' if not r else f"{r['verdict']} ({', '.join(r['mechanisms'][:3])})"
     suite = (m['confirmed_by_lead'].get('existing_suite_with_change') or ['not run'])[-1]
-    lines.append(f"| {m['property']} | {', '.join(m['files_changed'])} | {m.get('breaks') or ''} | {m.get('needs_to_manifest') or ''} | {suite} | {tier('quick')} | {tier('thorough')} |")
+    ident = os.path.basename(os.path.dirname(path))
+    first = 'caught' if m.get('caught_at_first_run', True) else 'missed -> check strengthened'
+    lines.append(f"| {ident} | {m.get('round', 1)} | {', '.join(m['files_changed'])} | {m.get('breaks') or ''} | {m.get('needs_to_manifest') or ''} | {suite} | {first} | {tier('quick')} |")
 with open(os.path.join(HERE, 'docs', 'seeded.md'), 'w', encoding='utf-8') as fd:
     fd.write('\n'.join(lines) + '\n')
 print('\n'.join(lines[-12:]))
